@@ -246,6 +246,9 @@ func layersOf(s *Spec) []Layer {
 		return []Layer{mk(s, "*errutil.withPrefix", Prefix, fmtText(s))}
 	case "stack":
 		return []Layer{stackL(s)}
+	case "stackn":
+		// a withStack layer with 1-3 frames (of the runtime and the test runner)
+		return []Layer{stackL(s)}
 	case "stackdeep":
 		// a withStack layer that captured no frame: no reportable stack
 		return []Layer{mk(s, "*withstack.withStack", Transparent, "")}
@@ -290,6 +293,12 @@ func layersOf(s *Spec) []Layer {
 	case "domain":
 		l := mk(s, "*domains.withDomain", Transparent, "")
 		l.Domain = fmt.Sprintf("error domain: %q", S(0))
+		if len(s.I) > 0 && s.I[0] == 1 {
+			l.Domain = NoDomain
+		}
+		if len(s.I) > 0 && s.I[0] == 2 {
+			l.Domain = ""
+		}
 		l.HasDom = true
 		l.Ext = l.Domain
 		return []Layer{l}
@@ -425,6 +434,14 @@ func layersOf(s *Spec) []Layer {
 		}
 		p += " " + S(2)
 		return []Layer{mk(s, "*net.OpError", Prefix, p)}
+	case "netopsrc":
+		// what (*net.OpError).Error() prints
+		p := S(0)
+		if S(1) != "" {
+			p += " " + S(1)
+		}
+		p += " " + S(2) + "->" + S(3)
+		return []Layer{mk(s, "*net.OpError", Prefix, p)}
 	case "dnswrap":
 		return []Layer{mk(s, "*net.DNSError", Full, "lookup "+S(1)+": "+S(0))}
 	case "pkgmsg":
@@ -482,6 +499,14 @@ func layersOf(s *Spec) []Layer {
 		l := mk(s, "*join.joinError", Leaf, strings.Join(ts, "\n"))
 		l.Multi = s.X
 		return []Layer{stackL(s), l}
+	case "subjoin":
+		var ts []string
+		for _, x := range s.X {
+			ts = append(ts, Text(x))
+		}
+		l := mk(s, "*join.joinError", Leaf, strings.Join(ts, "\n"))
+		l.Multi = s.X
+		return []Layer{l}
 	case "gojoin":
 		var ts []string
 		for _, x := range s.X {
@@ -526,6 +551,15 @@ func layersOf(s *Spec) []Layer {
 		l := mk(s, "*gen.UMultiCauser", Leaf, t)
 		l.Multi = s.X
 		return []Layer{l}
+	case "umultiis":
+		t := S(0)
+		for _, x := range s.X {
+			t += "; " + Text(x)
+		}
+		l := mk(s, "*gen.UMultiIs", Leaf, t)
+		l.Multi = s.X
+		l.IsOf = S(1)
+		return []Layer{l}
 	case "rmulti":
 		l := mk(s, "*gen.RMulti", Leaf, S(0))
 		l.Multi = s.X
@@ -536,3 +570,17 @@ func layersOf(s *Spec) []Layer {
 
 // Chain1 returns the layers contributed by the node s alone.
 func Chain1(s *Spec) []Layer { return layersOf(s) }
+
+// NoDomain is the documented domain of an error without domain annotation.
+const NoDomain = "error domain: <none>"
+
+// ModelDomain is the domain of an error according to the model: that
+// of the outermost domain annotation of its single-cause chain.
+func ModelDomain(ls []Layer) string {
+	for _, l := range ls {
+		if l.HasDom {
+			return l.Domain
+		}
+	}
+	return NoDomain
+}
